@@ -1,7 +1,7 @@
 """SP-*: spacing decisions (src/space.cpp do_space)."""
 import re
 TUS = ['chunk.cpp', 'unc_text.cpp', 'unicode.cpp', 'unc_ctype.cpp', 'punctuators.cpp', 'token_is_within_trailing_return.cpp', 'options_for_QT.cpp',
-       'language_tools.cpp', '$BUILD/src/options.cpp']
+       'language_tools.cpp', '$BUILD/src/options.cpp', '$HARNESS/chartable.cpp']
 NOLOGTEXT = ['_Z11encode_utf8iRSt9vp_vectorIhvE', 'snprintf']   # snprintf only formats the rule text of the two table fall-backs for the log
 
 
@@ -48,3 +48,20 @@ PROPERTIES = {
     'C19': dict(obligations=['SP-ATTR'],
                 not_decided='application of the decision to columns (space_text), the fusion guard (ensure_force_space), later passes that move columns; rule names that are not IARF options are not attributed.'),
 }
+
+# ---- SP-APPLY / SP-FUSE: space_text() with do_space detached
+PATCH2 = [dict(file='space.cpp', subs=[(r'^static iarf_e do_space\(Chunk \*first, Chunk \*second, int &min_sp\)\n\{', 'static iarf_e do_space(Chunk *first, Chunk *second, int &min_sp);\nstatic iarf_e vp_detached_do_space(Chunk *first, Chunk *second, int &min_sp)\n{', 1)])]
+OBLIGATIONS.append(dict(id='SP-APPLY', harness='sp2.cpp', entry='vp_sp_apply', extra_tus=TUS + ['keywords.cpp'], havoc_options=True, patch_sources=PATCH2, noop=['snprintf'],
+                        pinned_options=['use_options_overriding_for_qt_macros'], mem_gb=24,
+                        instances=lambda tier: [dict(name='l%d-%d' % (a, b), bound='token texts of %d and %d printable characters (both words, or both punctuators of the ISO C/C++ list incl. comment openers), '
+                                                     'every decision (av, min_sp 0..3) of do_space, original gap 0..2, every token kind, C and C++' % (a, b),
+                                                     unwind=8, unwindset={'strlen|strcmp|memcpy|find_punctuator': 12}, defs=dict(L1=a, L2=b, VP_CAP_INT=4, VP_CAP_U8=12))
+                                                for (a, b) in ([(1, 1), (1, 2), (2, 1)] if tier == 'quick' else [(1, 1), (1, 2), (2, 1), (2, 2), (3, 1), (1, 3)])],
+                        assumptions=['do_space() replaced by a stub returning an arbitrary decision (source patch detaches the real one; SP-ATTR decides it)',
+                                     'A and B are ordinary code tokens of the same lexical class (word/word or punctuator/punctuator); word-number and number-punctuator adjacency is outside the claim',
+                                     'Qt SIGNAL/SLOT option overriding off', 'container models, logging helpers empty']))
+import os as _os
+if _os.environ.get('VP_EXPERIMENTAL'):      # not claimed until it has passed on the unchanged tree
+    PROPERTIES['C19']['obligations'].append('SP-APPLY')
+    PROPERTIES['C01'] = dict(obligations=['SP-APPLY'])
+    PROPERTIES['C02'] = dict(obligations=['SP-APPLY'])
